@@ -227,6 +227,19 @@ class Piece:
             k += 1
         # T-ATTR inside bodies: #[cfg(feature = "crypto_openssl")] on statements/blocks (feature is on in every shipped build)
         self._inner_attr_strip(kb, k1)
+        # T-LOG (3): bare debug!(..) / info!(..) ... imported from the log crate
+        k = kb
+        while k < k1:
+            t = toks[k]
+            if t.kind == "ident" and t.text in ("trace", "debug", "info", "warn", "error") and toks[k + 1].text == "!" \
+                    and toks[k + 2].text == "(" and toks[k - 1].text not in (":", "."):
+                close = match_close(toks, k + 2)
+                inner = toks[k + 3:close]
+                if any(x.text == "(" and i > 0 and inner[i - 1].kind == "ident" for i, x in enumerate(inner)):
+                    raise Undecided(f"{fn.name}: log macro with a call in its arguments")
+                self._add(t.start, toks[close].end, "()", "T-LOG")
+                k = close
+            k += 1
         # T-LOG (2): LOGGER.trace|debug|info|warn(&format!(..)) through the HasLogger trait
         PURE = {"as_raw", "display", "to_string", "to_str", "unwrap_or_default", "len", "as_str", "Some", "code"}
         k = kb
@@ -522,6 +535,34 @@ class Piece:
                 if t.text == ",":
                     expect_field = True
                 k += 1
+        if it.kind == "const" and self.sf.toks[it.k1 - 1].kind == "lit" and self.sf.toks[it.k1 - 1].text.startswith('b"') \
+                and self.sf.toks[it.k1 - 2].text == "=":
+            # T-BYTES: a byte-string constant; the tool decodes the literal and states its bytes as the constant's spec
+            toks = self.sf.toks
+            lit = toks[it.k1 - 1].text
+            body, out, i = lit[2:-1], [], 0
+            while i < len(body):
+                ch = body[i]
+                if ch == "\\":
+                    e = body[i + 1]
+                    if e == "x":
+                        out.append(int(body[i + 2:i + 4], 16)); i += 4; continue
+                    m = {"n": 10, "r": 13, "t": 9, "\\": 92, "0": 0, '"': 34, "'": 39}
+                    if e not in m:
+                        raise Undecided("T-BYTES: unsupported escape")
+                    out.append(m[e]); i += 2; continue
+                if ord(ch) > 127:
+                    raise Undecided("T-BYTES: non-ASCII byte literal")
+                out.append(ord(ch)); i += 1
+            kc = it.k0
+            while toks[kc].text != "const":
+                kc += 1
+            name = toks[kc + 1].text
+            self._add(toks[it.k0].start, toks[it.k0].start, "#[verifier::external_body]\n", "T-BYTES")
+            self._add(toks[kc].start, toks[kc].start, "exec ", "T-BYTES")
+            self._add(toks[it.k1 - 2].start, toks[it.k1 - 2].end,
+                      f"ensures {name}@ == seq![{', '.join(str(b) + 'u8' for b in out)}] {{", "T-BYTES")
+            self._add(toks[it.k1].start, toks[it.k1].end, "}", "T-BYTES")
         if it.kind == "const":
             # the elided lifetime of a const reference is 'static; Verus wants it written out
             toks = self.sf.toks
